@@ -173,6 +173,22 @@ def job_histories(job, cls, L, chunk, nchunks):
             else:
                 job.prove(name + ": observables equal a fresh object's", pr.pc + [diff], bound=f"history length {len(hist)}", replay=rp, elim=True)
     job.bound(**{f"histories_checked_chunk{chunk}": checked})
+    # vacuity: the assumptions of one representative history (two simulations, all three recovery calls) are satisfiable
+    if chunk == 0:
+        def rep():
+            SS.LinSolve.reset(MemoSolve())
+            SS.reset_names()
+            grids = _grids()
+            fluid = FluidStub(density_rows=2) if cls != "IdealReservoir" else None
+            o = (mod.IdealReservoir(Q(nx), fresh("pf", pos=True), fresh("pi", pos=True), None) if fluid is None
+                 else mod.SinglePhaseReservoir(Q(nx), fresh("pf", pos=True), fresh("pi", pos=True), fluid))
+            for op in ("simA", "rf", "simC", "interp"):
+                _apply(o, op, grids, fresh("q"))
+            return o
+        for pr in paths(job, rep, [], max_paths=16):
+            if pr.exc is None:
+                job.prove(f"{cls}/reach: simA>rf>simC>interp", pr.pc, expect="sat", elim=True)
+                break
 
 
 def jobs(tier):
